@@ -151,6 +151,10 @@ func (b *Batch) Delete(key []byte) error {
 	b.mu.Lock()
 	defer b.mu.Unlock()
 
+	if b.committed {
+		return ErrBatchCommitted
+	}
+
 	logRecord := b.findPendingRecord(key)
 
 	// 缓存命中, 直接操作缓存
@@ -185,17 +189,20 @@ func (b *Batch) Delete(key []byte) error {
 }
 
 func (b *Batch) Commit() error {
-	// 提交后允许操作 DB 实例
-	defer b.db.mu.Unlock()
-
 	b.mu.Lock()
 	defer b.mu.Unlock()
 
-	if len(b.staged) == 0 {
-		return nil
-	}
+	// 重复提交时不再持有 DB 锁, 不能再次释放
 	if b.committed {
 		return ErrBatchCommitted
+	}
+	// 无论提交成功与否, DB 锁都将被释放, 批处理不可再使用
+	b.committed = true
+	// 提交后允许操作 DB 实例
+	defer b.db.mu.Unlock()
+
+	if len(b.staged) == 0 {
+		return nil
 	}
 
 	err := b.flushStaged()
@@ -223,7 +230,6 @@ func (b *Batch) Commit() error {
 
 	b.staged = nil
 	b.stageIndex = nil
-	b.committed = true
 	return nil
 }
 
